@@ -1,3 +1,4 @@
+import BnpVerif.Model.C18
 /-! C17 — indexed FASTA random access (`bionumpy/io/indexed_fasta.py`, `FastaIdxBuffer.get_data`
 in `multiline_buffer.py`). Executable model of the index builder (line scan with byte offsets),
 the faidx-style lookup (`read_index`: first word of the name column), `get_contig_lengths`
@@ -35,8 +36,11 @@ def fileOf (rs : List Rec) : Bytes := (rs.map recBytes).flatten
 /-- byte position of base `i` inside the wrapped block -/
 def posOf (W i : Nat) : Nat := (i / W) * (W + 1) + i % W
 
+/-- ASCII whitespace as Python's `str.split()` sees it: space, `\t \n \v \f \r`, `\x1c`–`\x1f` -/
+def isWs (b : Nat) : Bool := b == 32 || (decide (9 ≤ b) && decide (b ≤ 13)) || (decide (28 ≤ b) && decide (b ≤ 31))
+
 /-- first whitespace-delimited word (`str.split()[0]` on a name without leading blanks) -/
-def firstWord (h : Bytes) : Bytes := h.takeWhile (fun b => !(b == 32 || b == 9))
+def firstWord (h : Bytes) : Bytes := h.takeWhile (fun b => !isWs b)
 
 structure IdxRow where
   name : Bytes
@@ -112,6 +116,54 @@ def contigLengths (idx : List IdxRow) : List (Bytes × Nat) := idx.map (fun r =>
 
 /-- `get_contig_lengths` as shipped before the repair: the bases-per-line column -/
 def contigLengthsOld (idx : List IdxRow) : List (Bytes × Nat) := idx.map (fun r => (firstWord r.name, r.lenc))
+
+/-! ### the `.fai` file: written by `IndexBuffer`, read back by `read_index` and `Genome.from_file` -/
+
+/-- one line of the written index: name and the four integer columns (formatted by
+`ints_to_strings`; column-wise in the code, which is element-wise by `C18.batch_independent`),
+tab-separated -/
+def faiLine (r : IdxRow) : Bytes :=
+  List.intercalate [9] (r.name :: C18.intsToStrings [(r.rlen : Int), (r.offset : Int), (r.lenc : Int), (r.lenb : Int)]) ++ [10]
+
+def faiText (idx : List IdxRow) : Bytes := (idx.map faiLine).flatten
+
+/-- `read_index`: `line.split("\t")` must give five fields; name = first word; `int(...)` -/
+def parseFaiLine (l : Bytes) : Option IdxRow :=
+  match C18.split l 9 with
+  | [n, a, b, c, d] =>
+    match C18.specNat a, C18.specNat b, C18.specNat c, C18.specNat d with
+    | some a, some b, some c, some d => some ⟨firstWord n, a, b, c, d⟩
+    | _, _, _, _ => none
+  | _ => none
+
+def readIndex (text : Bytes) : Option (List IdxRow) := Base.omap parseFaiLine (linesOf text)
+
+/-- `str.split()`: maximal runs of non-whitespace -/
+def wordsAux (cur : Bytes) : Bytes → List Bytes
+  | [] => if cur = [] then [] else [cur.reverse]
+  | b :: bs =>
+    if isWs b then (if cur = [] then wordsAux [] bs else cur.reverse :: wordsAux [] bs)
+    else wordsAux (b :: cur) bs
+
+def words (s : Bytes) : List Bytes := wordsAux [] s
+
+/-- `Genome.from_file` on a `.fai`: `name, length = line.split()[:2]`, `int(length)` -/
+def genomeSizes (text : Bytes) : Option (List (Bytes × Nat)) :=
+  Base.omap (fun l => match words l with
+    | n :: len :: _ => match C18.specNat len with
+      | some v => some (n, v)
+      | none => none
+    | _ => none) (linesOf text)
+
+/-- `create_index` over several chunks: each chunk indexed on its own, starts shifted by the total
+size of the chunks before it (`offsets = cumsum([0] + byte sizes)`) -/
+def createIndexChunkedFrom (off : Nat) : List Bytes → List IdxRow
+  | [] => []
+  | c :: cs =>
+    (buildIndex c).map (fun r => { r with name := firstWord r.name, offset := r.offset + off }) ++
+      createIndexChunkedFrom (off + c.length) cs
+
+def createIndexChunked (chunks : List Bytes) : List IdxRow := createIndexChunkedFrom 0 chunks
 
 /-- `f.seek(p); f.read(n)` -/
 def readAt (file : Bytes) (p n : Nat) : Bytes := (file.drop p).take n
